@@ -20,7 +20,10 @@ import (
 	"strconv"
 	"strings"
 
+	"go/types"
+
 	"golang.org/x/tools/go/ast/astutil"
+	"golang.org/x/tools/go/packages"
 )
 
 const (
@@ -34,6 +37,10 @@ type config struct {
 	Concurrency []string `json:"concurrency"`
 	// files in which `range` over the named map expressions is routed through vorder
 	MapRange map[string][]string `json:"mapRange"`
+	// packages (import paths) in whose non-test files EVERY `range` over a map-typed expression is
+	// routed through vorder; the sites are found by type-checking the current (possibly mutated)
+	// source, so refactorings that rename or add map ranges are still covered
+	MapRangeAuto []string `json:"mapRangeAuto"`
 	// dst (relative to repo) -> src (relative to verif/harness/hooks)
 	Add map[string]string `json:"add"`
 }
@@ -127,6 +134,26 @@ func main() {
 		}
 		content[rel] = res
 		touched[rel] = true
+	}
+	if len(cfg.MapRangeAuto) > 0 {
+		auto, err := findMapRanges(*repo, cfg.MapRangeAuto, content)
+		if err != nil {
+			fatal(2, "map range discovery: %v", err)
+		}
+		if cfg.MapRange == nil {
+			cfg.MapRange = map[string][]string{}
+		}
+		for rel, exprs := range auto {
+			have := map[string]bool{}
+			for _, e := range cfg.MapRange[rel] {
+				have[strings.TrimPrefix(e, "any:")] = true
+			}
+			for _, e := range exprs {
+				if !have[strings.TrimPrefix(e, "any:")] {
+					cfg.MapRange[rel] = append(cfg.MapRange[rel], e)
+				}
+			}
+		}
 	}
 	for rel, exprs := range cfg.MapRange {
 		src := load(rel)
@@ -262,6 +289,78 @@ func rewriteConcurrency(name string, src []byte) ([]byte, error) {
 		return nil, err
 	}
 	return buf.Bytes(), nil
+}
+
+// findMapRanges type-checks the given packages of repo (with the current, possibly mutated,
+// content as overlay) and returns, per file (relative path), the textual range expressions
+// whose type is a map ("any:" prefix when the key type is not ordered). An expression text that
+// is ranged over both as a map and as something else in one file is an error.
+func findMapRanges(repo string, pkgs []string, content map[string][]byte) (map[string][]string, error) {
+	overlay := map[string][]byte{}
+	for rel, c := range content {
+		overlay[filepath.Join(repo, rel)] = c
+	}
+	env := []string{}
+	for _, e := range os.Environ() {
+		if strings.HasPrefix(e, "GOFLAGS=") || strings.HasPrefix(e, "GOWORK=") || strings.HasPrefix(e, "GOTOOLCHAIN=") || strings.HasPrefix(e, "GOSUMDB=") {
+			continue
+		}
+		env = append(env, e)
+	}
+	env = append(env, "GOPROXY=off") // as the repository's own test suite is run
+	cfg := &packages.Config{
+		Mode: packages.NeedName | packages.NeedFiles | packages.NeedSyntax | packages.NeedTypes | packages.NeedTypesInfo | packages.NeedCompiledGoFiles,
+		Dir:  repo, Env: env, Overlay: overlay,
+	}
+	loaded, err := packages.Load(cfg, pkgs...)
+	if err != nil {
+		return nil, err
+	}
+	out := map[string][]string{}
+	for _, p := range loaded {
+		if len(p.Errors) > 0 {
+			return nil, fmt.Errorf("%s: %v", p.PkgPath, p.Errors[0])
+		}
+		for i, f := range p.Syntax {
+			file := p.CompiledGoFiles[i]
+			rel, err := filepath.Rel(repo, file)
+			if err != nil || strings.HasPrefix(rel, "..") || strings.HasSuffix(rel, "_test.go") {
+				continue
+			}
+			isMap := map[string]string{} // expr text -> "" | "any:"
+			other := map[string]bool{}
+			ast.Inspect(f, func(n ast.Node) bool {
+				rs, ok := n.(*ast.RangeStmt)
+				if !ok {
+					return true
+				}
+				var eb bytes.Buffer
+				_ = format.Node(&eb, p.Fset, rs.X)
+				tv, ok := p.TypesInfo.Types[rs.X]
+				if !ok {
+					return true
+				}
+				m, ok := tv.Type.Underlying().(*types.Map)
+				if !ok {
+					other[eb.String()] = true
+					return true
+				}
+				prefix := "any:"
+				if b, ok := m.Key().Underlying().(*types.Basic); ok && b.Info()&types.IsOrdered != 0 {
+					prefix = ""
+				}
+				isMap[eb.String()] = prefix
+				return true
+			})
+			for e, prefix := range isMap {
+				if other[e] {
+					return nil, fmt.Errorf("%s: %q is ranged over as a map and as a non-map", rel, e)
+				}
+				out[rel] = append(out[rel], prefix+e)
+			}
+		}
+	}
+	return out, nil
 }
 
 // rewriteMapRange turns `for k, v := range <expr>` (expr textually one of exprs)
